@@ -24,6 +24,8 @@ char *reg_get(int c, int *lnmode)
 	if (c == ';') {
 		char *s = lbuf_get(xb, xrow);
 		snprintf(ln, sizeof(ln), "%s", s ? s : "");
+		if (s && strlen(s) >= sizeof(ln))	/* cut between characters */
+			*uc_beg(ln, ln + sizeof(ln) - 2) = '\0';
 		if (strchr(ln, '\n') != NULL)
 			*strchr(ln, '\n') = '\0';
 		if (lnmode != NULL)
